@@ -25,7 +25,8 @@ def run(v, workdir, replay):
     v.need("blocks_checked", 200)
     v.need("fee_events_checked", 800)
     v.need("fee_schedule_changes", 5)
-    v.need("near_max_amounts", 20)
+    v.need("amounts_above_2^64", 10)
+    v.need("near_max_attempts", 10)
     v.need("blocks_with_fee_payout", 100)
     for k in ("transfer", "rollup_data_submission", "bridge_lock", "bridge_unlock", "init_bridge_account"):
         v.need("kind:" + k, 10)
@@ -78,8 +79,10 @@ def check(v, hists):
                                   {"hist": list(h.key), "height": height, "asset": a, "before": str(prev[a]), "after": str(tot[a])})
 
         for o in chainlog.walk(h, on_block_end=on_end, on_block_begin=on_begin):
-            if o.result != "ok" or o.tx is None:
-                # D12-shaped: a transaction whose exact fee exceeds u128 must fail; failures are fine here
+            if o.tx is not None and any(int(a["amount"]) >= chainlog.U128_MAX - 8 for a in o.tx.get("actions", []) if "amount" in a):
+                v.saw("near_max_attempts")
+            if o.result != "ok" or o.tx is None or o.where == "packet":
+                # a transaction whose exact fee exceeds u128 must fail; failures are fine here
                 continue
             kinds = [a["kind"] for a in o.tx["actions"]]
             if any(k in ("fee_change", "fee_asset_change") for k in kinds):
@@ -103,8 +106,8 @@ def check(v, hists):
             for k in set(kinds):
                 v.saw("kind:" + k)
             amounts = [int(a["amount"]) for a in o.tx["actions"] if "amount" in a]
-            if any(n >= 1 << 127 for n in amounts):
-                v.saw("near_max_amounts")
+            if any(n >= 1 << 64 for n in amounts):
+                v.saw("amounts_above_2^64")
             fee_assets = sorted({a.get("fee_asset", "")[:8] for a in o.tx["actions"] if a.get("fee_asset")})
             v.cell("+".join(sorted(set(kinds))), len(fee_assets), amount_class(max(amounts) if amounts else 0))
             wit["expected"] = {"%s|%s" % k: str(x) for k, x in exp.items()}
